@@ -33,8 +33,10 @@ type GenSpec struct {
 	Min      int        `json:"min,omitempty"`
 	Max      int        `json:"max,omitempty"`
 	MaxLen   int        `json:"maxlen,omitempty"`
-	Short    bool       `json:"short,omitempty"` // use the shorthand constructor (SliceOf, MapOf, String, ...) when bounds are all -1
-	Fn       string     `json:"fn,omitempty"`    // key function: id | mod ; predicate: mod | ge | le | never | always
+	Short    bool       `json:"short,omitempty"`   // use the shorthand constructor (SliceOf, MapOf, String, ...) when bounds are all -1
+	Fn       string     `json:"fn,omitempty"`      // key function: id | mod ; predicate: mod | ge | le | never | always
+	SigKind  string     `json:"sigkind,omitempty"` // filter Fn "sig": the predicate raises this signal on the T of the draw in flight
+	SigSite  int        `json:"sigsite,omitempty"`
 	FM       int64      `json:"fm,omitempty"`
 	FC       int64      `json:"fc,omitempty"`
 	Re       string     `json:"re,omitempty"`
@@ -211,6 +213,8 @@ func (s *GenSpec) pred(v any) bool {
 		return m <= s.FC
 	case "never":
 		return false
+	case "sig":
+		return mod(m, s.FM) != s.FC
 	}
 	return true
 }
@@ -404,12 +408,21 @@ func (s *GenSpec) Build(env *BuildEnv) *rapid.Generator[any] {
 	case "mapped":
 		return rapid.Map(s.Sub[0].Build(env), func(v any) any {
 			atomic.AddInt64(&env.FnCalls, 1)
+			if s.SigKind != "" && env.X != nil && mod(Measure(v), s.FM) == s.FC {
+				env.X.predSignal(s) // does not return when a draw is in flight under the interpreter
+			}
 			return Wrapped{v}
 		})
 	case "filter":
 		return s.Sub[0].Build(env).Filter(func(v any) bool {
 			atomic.AddInt64(&env.FnCalls, 1)
 			ok := s.pred(v)
+			if !ok && s.Fn == "sig" && env.X != nil {
+				// user code that is handed no T but closes over the one of its property: a failure raised from inside
+				// a predicate (fatal kinds and panics only: it does not return). Without a draw in flight under the
+				// interpreter (Example, concurrent use) the value is just rejected.
+				env.X.predSignal(s)
+			}
 			if !ok {
 				env.rejected()
 			}
